@@ -18,7 +18,7 @@ CONSTANTS
   U2 = {"/a", "*"}
   MemLabels = {"", "fa", "fb"}
   MemSrcTags = {"same", "digest", "implicit", "nested", "org", "orgpfx", "reg", "bad"}
-  SelfSrcTags = {"same", "digest", "implicit", "bad"}
+  SelfSrcTags = {"same", "digest", "implicit", "orgpfx", "bad"}
 ACTION_CONSTRAINT Emit
 CHECK_DEADLOCK FALSE
 INVARIANTS RefConsistent DesignSound DesignSystemRole
